@@ -280,6 +280,7 @@ def generate(run_seed, tier):
             tape[str(i)] = rs.randrange(1, 4)
     return {"rig": NAME, "prop": PROP, "fmt": fmt, "frames": frames, "deliveries": deliveries, "zmq_ids": zmq_ids,
             "pipe_cap": pipe_cap, "sink_stalls": sink_stalls, "source_stalls": source_stalls, "tape": tape,
+            "prev": ([wire.gen_beast_frame(rw, 0.0)] if fmt == "beast" else [wire.gen_raw_frame(rw, 0.0)] if fmt == "raw" else [wire.gen_skysense_frame(rw, 0.0)]) if rf_.random() < 0.4 else [],
             "cpu_us": rs.choice([0, 1, 50]), "coalesce": rf_.random() < 0.5, "group": ("bulk-" if bulk else "") + ("ids" if zmq_ids else "noids")}
 
 
@@ -314,6 +315,16 @@ def execute(sc, keep_log=False):
             super(ObsSource, self_).handle_messages(messages)
             oracle.on_handled_return()
 
+    if sc.get("prev"):
+        # an earlier connection served by another client object in this process
+        pst = wire.serialise(sc["fmt"], sc["prev"])
+        c0 = src.NetSource("sim", 30005, sc["fmt"])
+        c0.buffer.extend(pst.data)
+        try:
+            getattr(c0, {"beast": "read_beast_buffer", "raw": "read_raw_buffer", "skysense": "read_skysense_buffer"}[sc["fmt"]])()
+        except Exception:
+            pass
+        stats.c["fault.reconnect_with_fresh_client"] += 1
     source = ObsSource("sim", 30005, sc["fmt"])
     t_src = k.spawn("source", lambda: source.run(raw_pipe, stop, exq))
 
@@ -343,6 +354,8 @@ def execute(sc, keep_log=False):
         k.stall(t_src, at, dur)
 
     def quiescent():
+        if k.spawned_pending():
+            return False
         return (state["fed"] == npieces and not net.inq and not raw_pipe.q
                 and t_src.wait is not None and t_src.wait[2] == "recv"
                 and t_sink.wait is not None and k.now_us >= t_src.frozen_until and k.now_us >= t_sink.frozen_until)
@@ -406,7 +419,7 @@ def focus(sc, violation):
 def shrink(sc, fails, budget_n=300):
     b = Budget(budget_n)
     sc = dict(sc)
-    for key, val in (("tape", {}), ("sink_stalls", []), ("source_stalls", []), ("cpu_us", 0), ("pipe_cap", 64)):
+    for key, val in (("tape", {}), ("sink_stalls", []), ("source_stalls", []), ("cpu_us", 0), ("pipe_cap", 64), ("prev", [])):
         if sc.get(key) != val and b.take():
             c = dict(sc)
             c[key] = val
